@@ -1077,7 +1077,9 @@ class Server:
                             connection.restart_offset = 0
                         else:
                             connection.restart_offset = 0
-                            message = f"{cmd!r} not implemented"
+                            # (quoted in part: the reply stays a line the
+                            # peer can read)
+                            message = f"{cmd[:64]!r} not implemented"
                             connection.response("502", message)
                 if login_waiting is not None and not handlers:
                     f, rest = login_waiting
@@ -1531,7 +1533,7 @@ class Server:
             connection.transfer_type = rest
             code, info = "200", ""
         else:
-            code, info = "502", f"type {rest!r} not implemented"
+            code, info = "502", f"type {rest[:64]!r} not implemented"
         connection.response(code, info)
         return True
 
